@@ -215,8 +215,12 @@ def run_property(prop, tier, seed):
             z3_before = len(eng.obligations)
             stats.append(eng.verify_contract(c))
         except EngineError as e:
-            out_of_reach.append({'function': target, 'reason': str(e)})
-            del eng.obligations[z3_before:]
+            # the exploration of this root stopped: what was generated so far stays (an obligation that fails on an explored
+            # path is a real failure), but the root is out of reach: nothing is claimed about its unexplored paths
+            out_of_reach.append({'function': target, 'reason': str(e), 'obligations_from_the_partial_exploration': len(eng.obligations) - z3_before})
+            for o in eng.obligations[z3_before:]:
+                o.note = (o.note or '') + ' [partial exploration of an out-of-reach root]'
+            eng.obligations[z3_before:] = [o for o in eng.obligations[z3_before:] if o.kind not in ('cover', 'cover-path', 'twin')]
             eng.cur_root_target_inline = None
             eng.cur_inline_callees = ()
         except (KeyError, AttributeError, IndexError, TypeError, ValueError) as e:
